@@ -150,7 +150,7 @@ func genWeek() week {
 // hook(local dir) while the count files are there, and runs the real
 // findWork+reports with X = XOf(m); returns the bytes of local/<week>.json and
 // local/local.<week>.json (nil when not written) and the files as the real parser reads them.
-func runUploader(ucfg *telemetry.UploadConfig, cfgVersion string, m uint64, w week, files []fileSpec, hook func(localDir string)) (body, localBody []byte, parsed []*counter.File) {
+func runUploader(ucfg *telemetry.UploadConfig, cfgVersion string, m uint64, w week, files []fileSpec, hook func(localDir string)) (body, localBody []byte, parsed [][]string) {
 	dir, err := os.MkdirTemp(root, "t")
 	if err != nil {
 		panic(err)
@@ -170,9 +170,9 @@ func runUploader(ucfg *telemetry.UploadConfig, cfgVersion string, m uint64, w we
 		}
 		pf, err := counter.Parse(name, data)
 		if err != nil {
-			panic(fmt.Sprintf("the real parser rejects a generated counter file: %v", err))
+			pf = &counter.File{}
 		}
-		parsed = append(parsed, pf)
+		parsed = append(parsed, WFileRef(fs, pf.Meta, pf.Count, err))
 	}
 	if hook != nil {
 		hook(tdir.LocalDir())
@@ -403,7 +403,7 @@ func caseApproval() {
 	})
 	f = append(f, I(int64(len(parsed))))
 	for _, pf := range parsed {
-		f = append(f, WFile(pf.Meta, pf.Count)...)
+		f = append(f, pf...)
 	}
 	var base telemetry.Report
 	if body != nil {
@@ -451,8 +451,8 @@ func caseApproval() {
 	}
 	// the uploader at X = 0 (the most permissive X) on the whole week
 	anyCount := false
-	for _, pf := range parsed {
-		if len(pf.Count) > 0 {
+	for _, fs := range files {
+		if len(fs.Counts) > 0 {
 			anyCount = true
 		}
 	}
@@ -681,9 +681,9 @@ func casePages() {
 		}
 		pf, err := counter.Parse(name, data)
 		if err != nil {
-			panic(err)
+			pf = &counter.File{}
 		}
-		f = append(f, WFile(pf.Meta, pf.Count)...)
+		f = append(f, WFileRef(fs, pf.Meta, pf.Count, err)...)
 	}
 	empty := &telemetry.UploadConfig{}
 	type preq struct {
@@ -742,6 +742,15 @@ func casePages() {
 	out.Case(true, f...)
 }
 
+// countFDs: open file descriptors of this process
+func countFDs() int {
+	ents, err := os.ReadDir("/proc/self/fd")
+	if err != nil {
+		return 0
+	}
+	return len(ents)
+}
+
 func main() {
 	outPath := os.Args[1]
 	n, _ := strconv.Atoi(os.Args[2])
@@ -755,13 +764,28 @@ func main() {
 	defer os.RemoveAll(root)
 	server = startHelper("../bin-vh_server", "VERIF_HARNESS=approval-server")
 	viewer = startHelper("../bin-vh_view")
+	fds0 := countFDs()
 	for i := 0; i < n; i++ {
-		if i%25 == 3 {
-			casePages()
-		} else {
-			caseApproval()
+		// watchdog: a case that does not come back is reported with its number, not left to the outer timeout
+		done := make(chan struct{})
+		go func() {
+			defer close(done)
+			if i%25 == 3 {
+				casePages()
+			} else {
+				caseApproval()
+			}
+		}()
+		select {
+		case <-done:
+		case <-time.After(120 * time.Second):
+			out.Case(true, "hang", I(int64(i)))
+			out.Close()
+			os.RemoveAll(root)
+			os.Exit(0)
 		}
 	}
+	out.Case(true, "fds", I(int64(fds0)), I(int64(countFDs())))
 	out.Close()
 	os.RemoveAll(root)
 }
